@@ -16,10 +16,8 @@ def handle (fs : List String) : String :=
   | none => "bad-op"
   | some ops => " ".intercalate ((trace State.init ops).map showStep)
 
-/-- counter-example lines replayed on the implementation on every run (proved in Witness.lean):
-    F2 — the HTTP app's Start fails at its second listener (address 1 is held by somebody else);
-    its first listener (address 0) stays bound and answers with the rejected config's tag 2. -/
-def witnessLines : List String :=
-  ["L=0~-~3,1,0,0,-=1,0,0,-,3,3 L=0~-~3,2,0,2.1,-=1,0,0,1,3,3"]
+/-- counter-example lines replayed on the implementation on every run: none — every clause holds
+    at full strength (the former F2 witness is a regression case in corpus/C01) -/
+def witnessLines : List String := []
 
 end CaddyModel.C01
